@@ -112,6 +112,11 @@ Theorem C14_reltol_first_step_repaired : length (rQ (lanczos1 (fops 3) (fmv S3) 
 Proof. exact lanczos_reltol_first_step_repaired. Qed.
 Print Assumptions C14_reltol_first_step_repaired.
 
+(* flag lanczos_start_dtype_cast: run of the model on the start vector as the pinned code stores it (imaginary part dropped) *)
+Theorem C14_start_dtype_cast_refuted : start_cast_bad true = true /\ start_cast_bad false = false.
+Proof. exact lanczos_start_dtype_cast_refuted. Qed.
+Print Assumptions C14_start_dtype_cast_refuted.
+
 Theorem C14_batch_shared_stop_refuted : batch_bad = true.
 Proof. exact lanczos_batch_shared_stop_refuted. Qed.
 Print Assumptions C14_batch_shared_stop_refuted.
